@@ -1,0 +1,54 @@
+//go:build verif
+
+// Contracts for package inspect, read by /verif/gvc (comment-only file; it declares
+// nothing and is compiled only with -tags verif).
+package inspect
+
+// ---- C02: load elision ------------------------------------------------------------------
+// PipelineStepOutputs decides for which steps the elements' data is loaded
+// (pipeline.State.StepLoadData loads step s iff out has s and out[s] is not just
+// ["_label"]). A statement that reads the data of the element current at its step must
+// find that step loaded. 'has' is analysed (proved below). hasKey - and fields, render,
+// unwind, path, aggregate, and mark references such as has(eq("$x.w", ..)) - are not part
+// of the analysis: KNOWN FINDING (clause haskey).
+//@ func PipelineStepOutputs
+//@   property C02
+//@   option load=gripql,jsonpath,util/protoutil
+//@   modifies MapD.Str MapV.Str.Slice MapV.Str.Str MapN SH.Str alloc
+//@   requires elems: forall j :: 0 <= j && j < len(stmts) ==> stmts[j] != nil
+//@   axiom wireWrapStmt: forall s:*gripql.GraphStatement :: s != nil && isAPtr(s.Statement) ==> ref(s.Statement) != 0
+//@   loop 1 invariant bound: i >= -1 && i < len(stmts)
+//@   loop 1 invariant outnn: out != nil
+//@   loop 1 invariant stepslen: len(steps) == len(stmts)
+//@   loop 1 invariant nonempty: forall s:Str :: has(out, s) ==> len(out[s]) >= 1 && soff(out[s]) == 0 && sref(out[s]) < alloc && sref(out[s]) >= 0
+//@   loop 1 invariant has: forall j :: i < j && j < len(stmts) && dyn(stmts[j].Statement, "*gripql.GraphStatement_Has") ==>
+//@       has(out, steps[j]) && !(len(out[steps[j]]) == 1 && out[steps[j]][0] == "_label")
+//@   loop 2 invariant has: forall j :: i < j && j < len(stmts) && dyn(stmts[j].Statement, "*gripql.GraphStatement_Has") ==>
+//@       has(out, steps[j]) && !(len(out[steps[j]]) == 1 && out[steps[j]][0] == "_label")
+//@   loop 2 invariant nonempty: forall s:Str :: has(out, s) ==> len(out[s]) >= 1 && soff(out[s]) == 0 && sref(out[s]) < alloc && sref(out[s]) >= 0
+//@   loop 2 invariant outnn: out != nil && i >= 0 && i < len(stmts) && len(steps) == len(stmts)
+//@   loop 3 invariant has: forall j :: i < j && j < len(stmts) && dyn(stmts[j].Statement, "*gripql.GraphStatement_Has") ==>
+//@       has(out, steps[j]) && !(len(out[steps[j]]) == 1 && out[steps[j]][0] == "_label")
+//@   loop 3 invariant nonempty: forall s:Str :: has(out, s) ==> len(out[s]) >= 1 && soff(out[s]) == 0 && sref(out[s]) < alloc && sref(out[s]) >= 0
+//@   loop 3 invariant outnn: out != nil && i >= 0 && i < len(stmts) && len(steps) == len(stmts)
+//@   ensures has: forall j :: 0 <= j && j < len(stmts) && dyn(stmts[j].Statement, "*gripql.GraphStatement_Has") ==>
+//@       has(result, steps[j]) && !(len(result[steps[j]]) == 1 && result[steps[j]][0] == "_label")
+//@   ensures haskey: forall j :: 0 <= j && j < len(stmts) && dyn(stmts[j].Statement, "*gripql.GraphStatement_HasKey") ==>
+//@       has(result, steps[j]) && !(len(result[steps[j]]) == 1 && result[steps[j]][0] == "_label")
+
+// PipelineSteps labels every statement with a step id (one per statement).
+//@ func PipelineSteps
+//@   property C02
+//@   option load=gripql
+//@   pure
+//@   requires elems: forall j :: 0 <= j && j < len(stmts) ==> stmts[j] != nil
+//@   loop 1 invariant len: len(out) == rangeindex + 1 && rangeindex < len(stmts) && soff(out) == 0
+//@   ensures len: len(result) == len(stmts)
+
+//@ func PipelineAsSteps
+//@   property C02
+//@   option load=gripql
+//@   pure
+//@   fresh
+//@   requires elems: forall j :: 0 <= j && j < len(stmts) ==> stmts[j] != nil
+//@   ensures nonnil: result != nil
